@@ -7,7 +7,7 @@ RULE = ("random polylines (degree 1, 1..5 segments, 2-D and 3-D, float data, uni
         "curve, points equidistant from two segments, points beyond the ends; random curves of degree 2..3 and rational arcs (soundness conditions "
         "only); every call under a wall-clock cap.  Non-trivial: at least two segments or degree >= 2; distinct = distinct (curve, point)."
         " Also: far points whose two nearest candidates differ by about 3e-6 of the distance, single-span curves that clean() could reduce; one Curve object projected on, given other "
-        "weights through the setter, projected on again.")
+        "weights through the setter, projected on again; integer knot vectors given as python ints with spans 2..4.")
 EXPLANATION = ("L3: the exact nearest-point oracle for polylines (`geom.nearest`, minimum of the per-segment quadratics over Q, proved optimal) gives "
                "the minimal distance; the returned tuple is checked for non-emptiness, order, range, equal distances (1e-6), minimality, "
                "stationarity of interior non-knot parameters (exact derivative via `rf.evalderiv`), termination and unchanged operands.")
@@ -22,7 +22,8 @@ def run_case(ctx, case):
     rec.case(case, nontrivial=(len(knots) > 2 or p >= 2))
     rec.count("label", c.get("label", "?"))
     rec.count("degree", str(p))
-    Uf = [float(x) for x in U]
+    Uf = [int(x) for x in U] if c.get("intknots") else [float(x) for x in U]
+    rec.count("knots", "python-int" if c.get("intknots") else "float")
     Pf = [np.array([float(x) for x in q]) for q in P]
     Wf = None if W is None else [float(w) for w in W]
     curve = Curve(Uf, Pf, Wf)
@@ -107,6 +108,29 @@ def run(ctx):
     # corpus: Newton step 0/0 -> NaN -> endless span search (repaired); degree-2 spline with a start parameter where C' = 0
     run_case(ctx, ser(dict(kind="proj", label="corpus", U=[F(0)] * 3 + [F(1)] + [F(2)] * 3,
                            P=[(F(0), F(0)), (F(1), F(1)), (F(2), F(0)), (F(3), F(1))], W=None, pt=[F(1), F(0)])))
+    for i in range(budget(ctx, 12, 120)):
+        # polylines and parabolas on integer knot vectors handed over as python ints, spans of length 2, 3, 4 (degree/span not an integer)
+        deg = 1 if i % 3 else 2
+        nseg = rng.randint(1, 3)
+        ks, x = [], 0
+        for _ in range(nseg):
+            x += rng.choice([2, 3, 4])
+            ks.append(x)
+        U = [F(0)] * (deg + 1) + [F(k) for k in ks[:-1] for _ in range(deg)] + [F(ks[-1])] * (deg + 1)
+        n_ = len(U) - deg - 1
+        P = [(F(rng.randint(-12, 12), 4), F(rng.randint(-12, 12), 4)) for _ in range(n_)]
+        for a_ in range(n_ - 1):
+            if P[a_] == P[a_ + 1]:
+                P[a_ + 1] = (P[a_ + 1][0] + 1, P[a_ + 1][1])
+        if rng.random() < 0.5:
+            t0 = F(rng.randint(1, 4 * ks[-1] - 1), 4)
+            v = ctx["drv"].call("curve.def", *curve_args(U, P, None), [t0])
+            pt = [frac(x_) for x_ in v[1][0]]
+            label = "oncurve"
+        else:
+            pt = [F(rng.randint(-20, 20), 4), F(rng.randint(-20, 20), 4)]
+            label = "random"
+        run_case(ctx, ser(dict(kind="proj", label=label, U=U, P=P, W=None, pt=pt, intknots=True)))
     for i in range(budget(ctx, 14, 150)):
         # one Curve object projected on, then given other weights (or none) through the setter, then projected on again
         if i % 2 == 0:
